@@ -4,6 +4,7 @@ Import ListNotations.
 From Snaps Require Import Base.Bytes Base.Assoc.
 From Snaps Require Import Model.Frame Model.PathModel Model.Mode Model.Api.
 From Snaps Require Import Proofs.ApiP Proofs.StandaloneP Proofs.StepP.
+From Snaps Require Import Model.Json Model.Matchers Proofs.MatchersP.
 
 (* MatchJSON / MatchYAML: in EVERY mode (create allowed, update enabled, CI) a call whose
    matchers (or validation) failed reports exactly one error, writes nothing, and still
@@ -37,3 +38,56 @@ Example C17_example :
   o_outcome o1 = Failed EMatchers /\ s_fs s1 = [] /\ o_outcome o2 = Added /\
   o_id o2 = [91; 84; 32; 45; 32; 50; 93]%N.
 Proof. vm_compute. repeat split. Qed.
+
+(* ---------- which matcher lists fail, and what the failure names (Model/Matchers.v) ---------- *)
+
+(* COMPLETE: every path of every matcher that fails on the document it actually meets (failing matchers' outputs being discarded)
+   is named in the error list, with its matcher and reason ... *)
+Theorem C17_errors_named : forall ms1 m ms2 ps1 p ps2 v r,
+  matcher_paths m = (ps1 ++ p :: ps2)%list ->
+  path_outcome m (doc_at ms1 m ps1 v) p = PRErr r ->
+  In (mk_err m p r) (snd (apply_matchers (ms1 ++ m :: ms2) v)).
+Proof. exact MatchersP.C17_errors_named. Qed.
+(* ... and EXACT: every reported error is such a failure *)
+Theorem C17_errors_sound : forall ms v err,
+  In err (snd (apply_matchers ms v)) ->
+  exists ms1 m ms2 ps1 p ps2 r,
+    ms = (ms1 ++ m :: ms2)%list /\ matcher_paths m = (ps1 ++ p :: ps2)%list /\
+    err = mk_err m p r /\ path_outcome m (doc_at ms1 m ps1 v) p = PRErr r.
+Proof. exact MatchersP.C17_errors_sound. Qed.
+(* the three ways to fail *)
+Theorem C17_missing_path_fails : forall m w p comps,
+  path_comps p = Some comps -> get w (steps_of w comps) = None -> matcher_eom m = true ->
+  path_outcome m w p = PRErr RMissing.
+Proof. exact MatchersP.C17_missing_path_fails. Qed.
+Theorem C17_wrong_type_fails : forall ps t e w p comps old,
+  path_comps p = Some comps -> get w (steps_of w comps) = Some old -> type_of old <> Some t ->
+  path_outcome (MType ps t e) w p = PRErr RType.
+Proof. exact MatchersP.C17_wrong_type_fails. Qed.
+Theorem C17_null_has_no_type : forall ps t e w p comps,
+  path_comps p = Some comps -> get w (steps_of w comps) = Some JNull ->
+  path_outcome (MType ps t e) w p = PRErr RType.
+Proof. exact MatchersP.C17_null_has_no_type. Qed.
+Theorem C17_callback_error_fails : forall p0 e w p comps old,
+  path_comps p = Some comps -> get w (steps_of w comps) = Some old ->
+  path_outcome (MCustom p0 CRError e) w p = PRErr RCallback.
+Proof. exact MatchersP.C17_callback_error_fails. Qed.
+(* ErrOnMissingPath(false): a missing path is ignored and the remaining paths are applied as if it were not listed *)
+Theorem C17_tolerated_missing : forall ps1 p ps2 x v comps,
+  path_comps p = Some comps ->
+  get (fst (apply_matcher (MAny ps1 x false) v)) (steps_of (fst (apply_matcher (MAny ps1 x false) v)) comps) = None ->
+  apply_matcher (MAny (ps1 ++ p :: ps2)%list x false) v = apply_matcher (MAny (ps1 ++ ps2)%list x false) v.
+Proof. exact C17_tolerated_missing_any. Qed.
+(* DISCARD: a failing matcher's output is thrown away - the next matcher gets the document the failing one received *)
+Theorem C17_discard_rule : forall m ms v,
+  snd (apply_matcher m v) <> [] ->
+  apply_matchers (m :: ms) v = (fst (apply_matchers ms v), (snd (apply_matcher m v) ++ snd (apply_matchers ms v))%list).
+Proof. exact matchers_discard_rule. Qed.
+Print Assumptions C17_errors_named.
+Print Assumptions C17_errors_sound.
+Print Assumptions C17_missing_path_fails.
+Print Assumptions C17_wrong_type_fails.
+Print Assumptions C17_null_has_no_type.
+Print Assumptions C17_callback_error_fails.
+Print Assumptions C17_tolerated_missing.
+Print Assumptions C17_discard_rule.
